@@ -37,6 +37,7 @@ def gen_scenario(rng, index):
     nodes = [fleet.gen_env(rng) for _ in range(n_nodes)]
     n_ops = rng.choice([60, 120, 200, 300, 400])
     restarts_left = rng.choice([0, 1, 2, 4])
+    bursts_left = rng.choice([0, 0, 1, 2])
     n_slots = rng.choice([2, 3, 4])
     intended = [[None] * n_slots for _ in range(n_nodes)]
     ops = []
@@ -69,6 +70,12 @@ def gen_scenario(rng, index):
         elif r < 0.19:
             ops.append({"op": "drop", "n": n, "slot": s})
             intended[n][s] = None
+        elif r < 0.205 and bursts_left:
+            # a long run of distinct units through one evaluator (caches filling up, counters crossing thresholds);
+            # a few of them are then asked again elsewhere
+            bursts_left -= 1
+            ops.append({"op": "burst", "n": n, "slot": s, "count": rng.choice([300, 1500, 5000]), "base": rng.randrange(10 ** 6),
+                        "recheck": [rng.randrange(300) for _ in range(6)], "on": rng.randrange(n_nodes)})
         elif r < 0.31:
             order = list(range(n_nodes))
             rng.shuffle(order)
@@ -177,6 +184,34 @@ class Runner:
                         fields = op["f"] if "f" in op else panel[op["p"] % len(panel)]
                         res = nodes[ni].request({"op": "call", "slot": slot, "fields": fields})
                         observe(ni, slot, fields, res, step)
+                elif k == "burst":
+                    ni, slot = op["n"], str(op["slot"])
+                    if slot in model[ni]:
+                        ti = model[ni][slot]
+                        spl = texts[ti]["splitters"]
+                        base_fields = dict(texts[ti]["panel"][0])
+
+                        def unit(j, spl=spl, base_fields=base_fields, op=op):
+                            f = dict(base_fields)
+                            for q, name in enumerate(spl):
+                                f[name] = (op["base"] + j) if q == 0 else f.get(name, "x")
+                            return f
+
+                        res_list = nodes[ni].request({"op": "burst", "slot": slot, "fields": [unit(j) for j in range(op["count"])]}, timeout=300.0)
+                        self.bump("fault.burst_calls", op["count"])
+                        for j in op["recheck"]:
+                            if j < len(res_list):
+                                observe(ni, slot, unit(j), tuple(res_list[j]), step)
+                        # the same units on another node / a fresh instance
+                        nj = op["on"] % len(nodes)
+                        if ensure_new(nj, "b0", ti, step)[0] == "ok":
+                            for j in op["recheck"]:
+                                res = nodes[nj].request({"op": "call", "slot": "b0", "fields": unit(j)})
+                                observe(nj, "b0", unit(j), res, step)
+                        # and once more where the burst happened
+                        for j in op["recheck"][:3]:
+                            res = nodes[ni].request({"op": "call", "slot": slot, "fields": unit(j)})
+                            observe(ni, slot, unit(j), res, step)
                 elif k == "restart":
                     ni = op["n"]
                     nodes[ni].kill()
